@@ -318,15 +318,7 @@ func partial(env Env, n ast.IsNode) (ast.IsNode, error) {
 			},
 		)
 	case ast.NodeTypeIsIn:
-		return tryPartial(env,
-			[]ast.IsNode{v.Left, v.Entity},
-			func(values []types.Value) Evaler {
-				return newIsInEval(newLiteralEval(values[0]), v.EntityType, newLiteralEval(values[1]))
-			},
-			func(nodes []ast.IsNode) ast.IsNode {
-				return ast.NodeTypeIsIn{NodeTypeIs: ast.NodeTypeIs{Left: nodes[0], EntityType: v.EntityType}, Entity: nodes[1]}
-			},
-		)
+		return partialIsIn(env, v)
 
 	case ast.NodeTypeExtensionCall:
 		nodes := make([]ast.IsNode, len(v.Args))
@@ -491,6 +483,39 @@ func partialIfThenElse(env Env, v ast.NodeTypeIfThenElse) (ast.IsNode, error) {
 		elseNode = extError(elseErr)
 	}
 	return ast.NodeTypeIfThenElse{If: residualNode(v.If, ifNode), Then: residualNode(v.Then, thenNode), Else: residualNode(v.Else, elseNode)}, nil
+}
+
+// partialIsIn partially evaluates `e is T in x`. Like the evaluator it does not touch x when e is known not to be a T,
+// and while e is not known yet an error in x stays latent in the residual: it must not surface unless x is needed.
+func partialIsIn(env Env, v ast.NodeTypeIsIn) (ast.IsNode, error) {
+	left, leftErr := partial(env, v.Left)
+	if leftErr != nil && !errors.Is(leftErr, errVariable) {
+		return nil, leftErr
+	}
+	if lv, ok := left.(ast.NodeValue); ok && leftErr == nil {
+		if e, ok := lv.Value.(types.EntityUID); ok && e.Type != v.EntityType {
+			return ast.NodeValue{Value: types.False}, nil
+		}
+		return tryPartial(env,
+			[]ast.IsNode{v.Left, v.Entity},
+			func(values []types.Value) Evaler {
+				return newIsInEval(newLiteralEval(values[0]), v.EntityType, newLiteralEval(values[1]))
+			},
+			func(nodes []ast.IsNode) ast.IsNode {
+				return ast.NodeTypeIsIn{NodeTypeIs: ast.NodeTypeIs{Left: nodes[0], EntityType: v.EntityType}, Entity: nodes[1]}
+			},
+		)
+	}
+	right, rightErr := partial(env, v.Entity)
+	if errors.Is(rightErr, errIgnore) {
+		return nil, rightErr
+	} else if rightErr != nil && !errors.Is(rightErr, errVariable) {
+		right = extError(rightErr)
+	}
+	return ast.NodeTypeIsIn{
+		NodeTypeIs: ast.NodeTypeIs{Left: residualNode(v.Left, left), EntityType: v.EntityType},
+		Entity:     residualNode(v.Entity, right),
+	}, nil
 }
 
 func partialAnd(env Env, v ast.NodeTypeAnd) (ast.IsNode, error) {
